@@ -27,7 +27,7 @@ static int g_rank = 0, g_size = 1;
 static int g_depth = 0;          // handler nesting as seen by the harness
 static bool g_in_cb = false;
 static std::map<long, bool> g_flags;
-static int g_maxfan = 2, g_hprog_pct = 20, g_hcb_pct = 5, g_hbc_pct = 0;
+static int g_maxfan = 2, g_hprog_pct = 20, g_hcb_pct = 5, g_hbc_pct = 0, g_hburst_pct = 0, g_hburst_k = 0;
 static std::vector<long> g_sizes = {0, 8, 100, 600};
 
 extern "C" void ygm_verif_hook(const char* tag, long a, long b, long c) {
@@ -67,6 +67,15 @@ static void handler_body(uint64_t uid, int epoch, int ttl) {
       hc::ev("C " + std::to_string(cu)); bool was = g_in_cb; g_in_cb = true;
       issue_async(cu, dest, 8, epoch, 0);
       g_in_cb = was; hc::ev("c " + std::to_string(cu)); });
+  }
+  h = mix(h);
+  if ((int)(h % 100) < g_hburst_pct) {
+    // a long-running handler: k times { send a small message ; local_progress } — hundreds of flushes inside ONE handler
+    for (int j = 0; j < g_hburst_k; ++j) {
+      uint64_t cu = uid * 4096 + 16 + (uint64_t)j; int dest = (int)(mix(cu) % (uint64_t)g_size);
+      issue_async(cu, dest, 8, epoch, 0);
+      hc::ev("P"); g_world->local_progress(); hc::ev("p");
+    }
   }
 }
 
@@ -153,7 +162,7 @@ extern "C" int sim_main(int argc, char** argv) {
   while (std::getline(in, line)) {
     std::stringstream ss(line); std::string w; ss >> w;
     if (w == "epochs") ss >> epochs;
-    else if (w == "param") { std::string k; long v; ss >> k >> v; if (k == "maxfan") g_maxfan = v; else if (k == "hprog") g_hprog_pct = v; else if (k == "hcb") g_hcb_pct = v; else if (k == "hbc") g_hbc_pct = v; }
+    else if (w == "param") { std::string k; long v; ss >> k >> v; if (k == "maxfan") g_maxfan = v; else if (k == "hprog") g_hprog_pct = v; else if (k == "hcb") g_hcb_pct = v; else if (k == "hbc") g_hbc_pct = v; else if (k == "hburst") g_hburst_pct = v; else if (k == "hburstk") g_hburst_k = v; }
     else if (w == "sizes") { g_sizes.clear(); long v; while (ss >> v) g_sizes.push_back(v); }
     else if (w == "op") { int e, r; ss >> e >> r; Op o; ss >> o.kind; std::string t; while (ss >> t) o.f.push_back(t); if (r == my || r == -1) ops.push_back({e, o}); }
   }
@@ -171,6 +180,7 @@ extern "C" int sim_main(int argc, char** argv) {
         else if (o.kind == "mask") { mask_left = atoi(o.f[0].c_str()) + 1; hc::ev("M+"); mask.reset(new ygm::detail::interrupt_mask(world)); }
         else if (o.kind == "cb") { uint64_t cu = strtoull(o.f[0].c_str(), 0, 10); int dest = atoi(o.f[1].c_str()); long size = atol(o.f[2].c_str()); hc::ev("R " + o.f[0]);
           world.register_pre_barrier_callback([cu, dest, size, e]() { hc::ev("C " + std::to_string(cu)); bool was = g_in_cb; g_in_cb = true; issue_async(cu, dest, size, e, 1); g_in_cb = was; hc::ev("c " + std::to_string(cu)); }); }
+        else if (o.kind == "cfbarrier") { hc::ev("CF+"); world.cf_barrier(); hc::ev("CF-"); }   // control-flow barrier (MPI_Barrier): all ranks, mid-epoch
         else if (o.kind == "statsreset") { world.stats_reset(); }   // public API; must not influence delivery or termination
         else if (o.kind == "gate") {   // gate <kind> <who> <epoch> <count> <max_steps>: directed schedules (simmpi_gate)
           simmpi_gate(atoi(o.f[0].c_str()), atoi(o.f[1].c_str()), atoi(o.f[2].c_str()), atoi(o.f[3].c_str()), atoi(o.f[4].c_str()));
